@@ -16,7 +16,7 @@ func init() {
 	props["C18"] = &propInfo{Level: "other", Explanation: "Decides structural necessary conditions of 'a recycled object never carries state of its previous use, and an object in use is never handed to another goroutine': (R18.1) for every pools.Pool.Put(x) in the module, a must-dataflow over the release path (the function containing Put and the reset methods it calls, recursively into struct-typed fields) proves that every field of the pooled struct is overwritten, truncated to length 0, reset through its own Reset/reset method, or is in a reasoned keep-table; (R18.2) lockset: every access to a field in the frozen guarded-by table happens with its mutex held (see C19 for mpx.client); (R18.3) recycle gates: the functions that return a state to its pool are reachable only through the reference-count / Swap(nil) gate. Not decided: general data-race freedom, equivalence of concurrent and sequential results (schedules).",
 		Trusted: []string{"sync.Pool semantics", "keep-table reasons in rules_c18.go (mutexes, preallocated backing arrays)"}}
 
-	register(&Rule{ID: "R18.1", Props: []string{"C18", "C04", "C11", "C09"}, Floor: 40,
+	register(&Rule{ID: "R18.1", Props: []string{"C18", "C04", "C11", "C09", "C03", "C12"}, Floor: 40,
 		Doc: "release-path completeness: on every path to pools.Pool.Put(x) each field of x's struct is overwritten, truncated, Reset() or in the keep-table with its required cleanup",
 		Run: runR18_1})
 }
@@ -250,6 +250,19 @@ func runR18_1(c *Ctx, r *R) {
 				}
 				nPut++
 				tkey := relPkg(named.Obj().Pkg().Path()) + "." + named.Obj().Name()
+				// which properties a leak through this pool breaks
+				outer := r
+				props := []string{"C18"}
+				switch relPkg(named.Obj().Pkg().Path()) {
+				case "rpc":
+					props = []string{"C18", "C04", "C09", "C11"} // call states: another call / another connection inherits the state
+				case "mpx":
+					props = []string{"C18", "C09", "C03"}
+				case "internal/writer":
+					props = []string{"C18", "C12"}
+				}
+				r := &R{c: outer.c, rule: &Rule{ID: outer.rule.ID, Props: props}}
+				defer func() { outer.n += r.n }()
 				// the pooled object may itself come from a field load when the release path is a method: trace obj to a parameter
 				f := ra.written(fn, obj, call.(ssa.Instruction))
 				for i := 0; i < st.NumFields(); i++ {
